@@ -233,6 +233,10 @@ type refEntry struct {
 }
 
 // rhC05Run runs nPlugins plugins with nUpd[j] updates each on the two active scalar fields fams.
+// c05CheckView: when set (C04), after every plugin the resources the next plugin would be shown for the
+// container being updated must equal the runtime's request overlaid with the successful updates so far.
+var c05CheckView bool
+
 func rhC05Run(kind int, fams [2]int, nUpd []int) {
 	shape("req=" + reqNames[kind])
 	shape("fields=" + famNames[fams[0]] + "+" + famNames[fams[1]])
@@ -343,6 +347,36 @@ func rhC05Run(kind int, fams [2]int, nUpd []int) {
 		vassert(err == nil, "request-should-succeed")
 		if err != nil {
 			return
+		}
+		if c05CheckView && kind == reqUpdate {
+			want := reqVal
+			if en := find(own); en != nil {
+				want = en.val
+			}
+			view := r.request.update.LinuxResources
+			for i := 0; i < 2; i++ {
+				if fams[0] == fams[1] && i == 1 {
+					break
+				}
+				g := getField(view, fams[i])
+				if fams[i] == famCpuCpus || fams[i] == famCpuMems {
+					ws := ""
+					if want[i].present {
+						ws = want[i].str
+					}
+					vassert(g.str == ws, "view-field-value")
+					continue
+				}
+				vassert(g.present == want[i].present, "view-field-presence")
+				if g.present && want[i].present {
+					if famIsString(fams[i]) {
+						vassert(g.str == want[i].str, "view-field-value")
+					} else {
+						vassert(g.num == want[i].num, "view-field-value")
+					}
+				}
+			}
+			cover("view-checked")
 		}
 	}
 	if failed {
@@ -507,4 +541,16 @@ func H_C05_fold2() {
 func H_C05_fold3() {
 	k, f := c05Instance(instance())
 	rhC05Run(k, f, []int{1, 2, 1})
+}
+
+// H_C04_update_view: update requests: the resources shown to the next plugin = the runtime's request overlaid
+// with the successful updates of earlier plugins (a dropped ignore-failure update leaves no trace).
+//verif:property C04
+//verif:instances 108
+//verif:quick-instances 54 55 62 69
+//verif:expect-cover view-checked
+func H_C04_update_view() {
+	c05CheckView = true
+	k, f := c05Instance(instance())
+	rhC05Run(k, f, []int{1, 1})
 }
